@@ -62,6 +62,9 @@ let run () =
       let o = match ws with
         | ["putself"; k; spec] -> (match self_put k spec with Some p -> Some p | None -> Some Size)
         | ["nearnoself"] -> Some Size
+        | ["sput"; k; v] -> Some (Put (bytes_of_hex k @ [N0], bytes_of_hex v @ [N0]))      (* string interface: terminators are part of key and value *)
+        | ["sget"; k] -> Some (Get (bytes_of_hex k @ [N0]))
+        | ["srem"; k] -> Some (Remove (bytes_of_hex k @ [N0]))
         | ["put"; k; v] -> Some (Put (bytes_of_hex k, bytes_of_hex v))
         | ["get"; k] -> Some (Get (bytes_of_hex k))
         | ["remove"; k] -> Some (Remove (bytes_of_hex k))
